@@ -19,6 +19,7 @@ def handleLine (line : String) : M Unit := do
   | "stump" :: rest => handleStump line rest
   | "cupdate" :: rest => handleCUpdate line rest
   | "cundo" :: rest => handleCUndo line rest
+  | ["cresync"] => count "cresync" line
   | ["enc", tag, res] => count ("enc:" ++ tag) line (res == "accepted")
   | _ => parseError line
 
